@@ -40,8 +40,10 @@ Theorem C19_no_overflow :
   (forall b a, guard_addr_position MB b a <> Panic) /\
   (forall s, guard_bankdef MB s <> Panic) /\
   (forall b, guard_fill MB b <> Panic) /\
-  (forall b pos size wr, advanced pos size -> guard_bank_output MB b pos size wr <> Panic) /\
-  (forall b pos size, advanced pos size -> place_item MB b pos size true <> Panic) /\
+  (forall b pos size wr, guard_bank_output MB b pos size wr <> Panic) /\
+  (forall b pos size wr, place_item MB b pos size wr <> Panic) /\
+  (forall b1 b2, guard_bank_overlap b1 b2 <> Panic) /\
+  (forall pos sizes, asm_block_positions pos sizes <> Panic) /\
   (forall bytes a, Z.of_nat (List.length bytes) <= IncFnsP.isize_max -> guard_incbin bytes a <> Panic) /\
   (forall bpc chars a, (1 <= bpc)%nat ->
      (forall ds, IncFns.read_digits bpc chars = Some ds -> Z.of_nat (List.length ds * bpc) <= IncFnsP.isize_max) ->
@@ -52,35 +54,40 @@ Proof.
         (conj (add_no_panic MB) (conj (sub_no_panic MB) (conj (mul_no_panic MB) (conj (width_no_panic MB)
         (conj res_no_panic (conj res_position_no_panic (conj (align_guard_no_panic MB) (conj (addr_guard_no_panic MB)
         (conj (bankdef_no_panic MB) (conj (fill_no_panic MB) (conj (bank_output_no_panic MB)
-        (conj (fun b pos size H => place_written_no_panic MB b pos size H C19_limits_word)
-        (conj incbin_no_panic (conj incstr_no_panic (group_no_panic 1 65535))))))))))))))))))).
+        (conj (fun b pos size wr => place_item_no_panic MB b pos size wr C19_limits_word)
+        (conj bank_overlap_no_panic (conj asm_block_positions_no_panic
+        (conj incbin_no_panic (conj incstr_no_panic (group_no_panic 1 65535))))))))))))))))))))).
 Qed.
 
-(* every position update of the resolve iterator (iter.rs next() / advance_address): the padding of a top-level label to
-   the bank's #labelalign and of #align (align_position), #addr (addr_position), #res / data / instruction (advance_by)
-   is a checked operation: never a panic, and an accepted position is a usize -- for ALL banks, positions and operands *)
+(* EVERY position sum of the resolver and of the output builder, without exception (tree /repo 76fc576): the padding of a
+   top-level label to the bank's #labelalign and of #align (align_position), #addr (addr_position), #res / data /
+   instruction (advance_by), the inner position of an asm block (asm_block_positions), the bank-size check and the
+   output range check (guard_bank_output), the output position of an item (output_position / place_item) and the bank
+   window ends (ends_after) are checked operations: never a panic, and an accepted position is a usize -- for ALL banks,
+   positions and operands *)
 Theorem C19_no_overflow_positions :
   (forall b pos la, align_position MB b pos la <> Panic) /\
   (forall b pos la p, align_position MB b pos la = Ok p -> (pos <= p)%N /\ Z.of_N p <= U) /\
   (forall b a, addr_position MB b a <> Panic) /\
   (forall b a p, addr_position MB b a = Ok p -> Z.of_N p <= U) /\
   (forall pos size, advance_by pos size <> Panic) /\
-  (forall pos size p, advance_by pos size = Ok p -> Z.of_N p = Z.of_N pos + Z.of_N size /\ Z.of_N p <= U).
+  (forall pos size p, advance_by pos size = Ok p -> Z.of_N p = Z.of_N pos + Z.of_N size /\ Z.of_N p <= U) /\
+  (forall pos sizes, asm_block_positions pos sizes <> Panic) /\
+  (forall pos sizes p, Z.of_N pos <= U -> asm_block_positions pos sizes = Ok p ->
+     Z.of_N p = Z.of_N pos + Z.of_N (fold_right N.add 0%N sizes) /\ Z.of_N p <= U) /\
+  (forall b pos size wr bsz, bk_size b = Some bsz -> Z.of_N bsz < Z.of_N pos + Z.of_N size ->
+     guard_bank_output MB b pos size wr = Err) /\
+  (forall b pos, match output_position b pos with
+                 | Some p => exists off, bk_outp b = Some off /\ p = (off + pos)%N /\ Z.of_N p <= U
+                 | None => bk_outp b = None \/ exists off, bk_outp b = Some off /\ U < Z.of_N off + Z.of_N pos
+                 end) /\
+  (forall outp size other, Z.of_N other <= U -> ends_after outp size other = (Z.of_N other <? Z.of_N outp + Z.of_N size)).
 Proof.
   exact (conj (align_position_no_panic MB) (conj (align_position_fits MB) (conj (addr_position_no_panic MB)
-        (conj (addr_position_fits MB) (conj advance_by_no_panic advance_by_fits))))).
+        (conj (addr_position_fits MB) (conj advance_by_no_panic (conj advance_by_fits
+        (conj asm_block_positions_no_panic (conj asm_block_positions_fits (conj (bank_output_size_above MB)
+        (conj output_position_spec ends_after_spec)))))))))).
 Qed.
-
-(* where the faithful model refutes "never wraps": positions the fix commits left unchecked *)
-Theorem C19_no_overflow_unwritten_position_refuted :   (* F61: label / #res in a bank whose outp + position overflows *)
-  exists b pos, advanced pos 0 /\ bk_unit b <> 0%N /\ fits (bk_outp b) /\ place_item MB b pos 0 false = Panic.
-Proof. exact (place_unwritten_overflows MB). Qed.
-Theorem C19_no_overflow_asm_block_position_refuted :   (* F62: `cur_position += size` inside an asm block *)
-  asm_block_positions (usize_max - 7) [8%N] = Panic.
-Proof. exact asm_block_position_overflows. Qed.
-Theorem C19_no_overflow_bank_window_refuted :           (* F48: `outp + size` in check_bank_overlap *)
-  guard_bank_overlap (mkBank 0 8 None (Some 8%N) (Some usize_max) false) (mkBank 0 8 None (Some 8%N) (Some 0%N) false) = Panic.
-Proof. exact bank_overlap_overflows. Qed.
 
 (* ---- C19_guards: above the bound => Err (decided before the loop/allocation), below it work <= bound *)
 Theorem C19_guards_shift :
@@ -135,7 +142,7 @@ Theorem C19_guards_output :
   (forall b size off, bk_fill b = true -> bk_size b = Some size -> bk_outp b = Some off -> size <> 0%N ->
      MB < Z.of_N off + Z.of_N size -> guard_fill MB b = Err) /\
   (forall b w, guard_fill MB b = Ok w -> Z.of_N w <= Z.max 0 MB) /\
-  (forall b pos size off, advanced pos size -> bk_outp b = Some off ->
+  (forall b pos size off, bk_outp b = Some off ->
      MB < Z.of_N off + Z.of_N pos + Z.of_N size -> guard_bank_output MB b pos size true = Err) /\
   (forall b pos size w, place_item MB b pos size true = Ok w -> Z.of_N w <= Z.max 0 MB).
 Proof. exact (conj (fill_above MB) (conj (fill_work MB) (conj (bank_output_above MB) (place_written_work MB)))). Qed.
@@ -208,7 +215,8 @@ Example C19_nonvacuous :
   d_asm_calls 12 = Ok 25 /\ d_asm_calls 13 = Err /\
   f_slice_left 799999999 = Ok (800000000%N, None) /\ f_slice_left 800000000 = Err /\
   f_res 4294967295 = Ok (0%N, Some 4294967295) /\ f_res 4294967296 = Err /\
-  f_bank_bits_res_max 2147483648 = Err /\ f_bank_outp_label 18446744073709551615 = Panic /\
+  f_bank_bits_res_max 2147483648 = Err /\ f_bank_outp_label 18446744073709551615 = Ok (0%N, Some 1) /\ f_bank_outp_two 18446744073709551615 = Ok (0%N, None) /\
+  f_asm_block_position 2305843009213693951 = Err /\
   d_mixed [0; 1; 3]%nat 25 = Ok (25, 75) /\ d_mixed [0; 1; 3]%nat 26 = Err /\ d_asm_nest 50 = Ok (50, 100) /\ d_asm_nest 51 = Err /\
   d_mixed (1 :: repeat 1 49 ++ [3])%nat 1 = Ok (50, 51) /\ d_mixed (1 :: repeat 1 49 ++ [3])%nat 2 = Err /\
   d_mixed_calls 8 = Ok 25 /\ d_mixed_calls 9 = Err /\
